@@ -6,7 +6,7 @@
 From Coq Require Import ZArith String List Bool.
 Require Import V.Base.PyLib V.Gen.RelKeys_gen V.Model.Graph V.Model.Sem V.Model.Single V.Model.Mult V.Model.Join V.Proofs.C01_proofs
                V.Proofs.Mult_proofs V.Proofs.C02_proofs V.Proofs.C10_proofs V.Model.Plan V.Model.SymShape V.Gen.SymAgg_gen
-               V.Proofs.C02_symagg_proofs V.Proofs.C02_decision_proofs V.Proofs.C02_query_proofs.
+               V.Proofs.C02_symagg_proofs V.Proofs.C02_decision_proofs V.Proofs.C02_query_proofs V.Model.Required V.Gen.Required_gen.
 Import ListNotations.
 Open Scope nat_scope.
 
@@ -58,6 +58,15 @@ Proof. vm_compute. reflexivity. Qed.
 Theorem C02_fanout_is_plan_flag : forall g base others,
   existsb (fun o => path_has g base o "one_to_many") others = model_fanout (map (path_types g base) others).
 Proof. exact plan_fanout_is_model_fanout. Qed.
+
+(* (c) the BASE model and the join order: on 315 scripted queries (dimension references with and without granularity suffixes, model-qualified metrics,
+       filters mentioning qualified / `_cte`-suffixed / unqualified / unknown tables, unparseable filter text) _find_required_models returns the models of the
+       dimensions, then of the metrics, then of the filters, each once in order of first appearance -- the list the planning model starts from *)
+Theorem C02_required_models_table : forallb required_row_ok required_rows = true.
+Proof. vm_compute. reflexivity. Qed.
+Theorem C02_required_is_plan_order : forall q,
+  required_models q = dedupe (map pd_model (pq_dims q) ++ map pmt_model (pq_metrics q) ++ map pf_model (pq_filters q)) [].
+Proof. reflexivity. Qed.
 
 (* THE DECISION: whatever the declarations (relationship types among the four literals) and the query, in the plan the model of the
    generator produces every metric of the BASE model (slot 0) either gets the symmetric form or sits on a safe slot -- so with
